@@ -23,6 +23,12 @@ Search (oracle independent of the model = NumPy applied to the first realisation
   x - x == 0, x + x == 2x; pickle round trip; persist; one dask.compute over several collections.
 A derived program that also fails when x is replaced by from_array(r0) is a defect of the
 derivation (C01's business), recorded in notes and not reported here.
+Shared intermediates (props_ext/c23_shared.py): programs that are DAGs — a fusable chain with two consumers, one of them
+combined with the random array — so that fused groups receive a substituted external operand in the same fusion pass; grid of
+templates x every scalar-parameter distribution x generator kinds + random DAGs, vs NumPy on a.compute().
+Accesses between draws (props_ext/c23_access.py): sequences of draws from one source (0-d arrays included) with every kind of
+look at the earlier arrays (.dtype, repr, len, derived dtypes, graph, optimize, compute, pickle, ...) between the draws, vs the
+same sequence without the looks (property) and vs a NumPy-only replay of the seed derivation (model level).
 Out of scope: unseeded generators (seed=None draws OS entropy: nothing to reproduce).
 """
 from __future__ import annotations
@@ -38,6 +44,8 @@ import numpy as np
 from harness import gen
 from harness import programs as P
 from harness.core import f_list
+from harness.props_ext import c23_access as AC
+from harness.props_ext import c23_shared as SH
 
 SYNC = {"scheduler": "sync"}
 
@@ -571,10 +579,12 @@ def rand_case(rng, kinds=GEN_KINDS, dists=None):
         # Generator.choice is a known class (probe_known): stateful bit generators in the graph
         dist = "integers"
     rank = rng.choice([1, 1, 2, 2, 3])
+    if rng.random() < 0.08:
+        rank = 0  # a 0-d random array (size=()): one block of size ()
     if dist in ("permutation", "choice"):
         rank = 1
     shape = [rng.randint(1, 7) for _ in range(rank)]
-    if rng.random() < 0.05 and dist not in ("permutation", "choice"):
+    if rank and rng.random() < 0.05 and dist not in ("permutation", "choice"):
         shape[rng.randrange(rank)] = 0
     chunks = [list(c) for c in P.rand_chunks_nd(rng, shape)]
     case = {"kind": kind, "seed": rng.randint(0, 2**31 - 1), "dist": dist, "shape": shape, "chunks": chunks}
@@ -868,7 +878,7 @@ def search(ctx):
     # every distribution x generator kind at least once (stratified), then random
     strat = [(k, d) for d in DISTS for k in GEN_KINDS]
     rng.shuffle(strat)
-    budget = ctx.scale(25, 420)  # seconds of search proper
+    budget = ctx.scale(22, 400)  # seconds of search proper
     t0 = time.time()
     for i in range(n):
         if time.time() - t0 > budget:
@@ -895,6 +905,11 @@ def search(ctx):
 def targeted(ctx):
     """Disagreements on the flat index / drawn children: lift to real arrays with that block grid."""
     tried = 0
+    nrep = sum(1 for d in ctx.disagreements if d["request"].split()[0] == "replay")
+    if nrep:
+        # the NumPy-only replay of the seed derivation disagrees with the values of a sequence of draws: every access set of that
+        # sequence was already played against the access-free baseline in the same group (c23_access.check_group)
+        ctx.notes["targeted_search_replay"] = f"{nrep} sequences of draws differ from the NumPy replay of the seed derivation; each was played with every access of its group against the access-free baseline"
     for d in ctx.disagreements[:30]:
         toks = d["request"].split()
         if toks[0] not in ("hs.flat_index", "hs.draw", "hs.grid"):
@@ -925,7 +940,13 @@ def run(ctx, replay=None):
         "correspondence: exhaustive block grids (rank<=3, <=40 blocks, with and without an extra_chunks coordinate) + seeded random "
         "large grids + real nodes; seed-sequence children of 1-5 successive constructions per generator. search: a case is "
         "(generator kind, seed, distribution, shape, chunking, earlier draws from the same generator); distinct by (kind, distribution, "
-        "rank, multi-block, prefix) and per derived program by (kind, root op, length, optimised, approx)"
+        "rank (0-d included), multi-block, prefix) and per derived program by (kind, root op, length, optimised, approx). shared-intermediate stream "
+        "(props_ext/c23_shared.py): every scalar-parameter distribution x 4 generator kinds x templates T1..T10 (a fusable chain with two consumers: "
+        "the random array's group and a concatenate / stack / reduction / second output / flip / rechunk / second random array) + random DAGs whose "
+        "steps take operands from the pool with replacement, vs NumPy on a.compute(); distinct by (kind, distribution, template, optimised). "
+        "access stream (props_ext/c23_access.py): sequences of draws from one source with every kind of look at an earlier array (0-d / length-0 / "
+        "length-1 / 1-d / 2-d first draw) between the draws, vs the same sequence without the looks; distinct by (kind, access, rank of the "
+        "accessed array, dedicated node class)"
     )
     ctx.assumptions = [
         "unseeded generators (seed=None) are out of scope: there is no realisation to reproduce",
@@ -936,10 +957,22 @@ def run(ctx, replay=None):
         "(random:array-param:generic-distribution:compute-raises), Generator.choice and choice over an array population are listed classes probed separately",
         "float sums / cumsums of derived programs are compared with rtol=1e-9 (summation order differs); everything else bitwise",
         "NumPy's SeedSequence.spawn / BitGenerator streams are deterministic functions of (entropy, spawn_key) (modelled as the abstract `spawn`)",
+        "access stream: the NumPy-only replay of the seed derivation (RandomState: 16 root bytes -> SeedSequence -> 128-bit block seeds -> MT19937; "
+        "Generator: children of the bit generator's SeedSequence in construction order) is a model-level comparison (a mismatch is a disagreement)",
     ]
     if replay is not None:
         case = replay.get("case", replay)
-        if case.get("kind") == "arrayparam":  # normal / poisson with array-valued parameters
+        if "shared_scenario" in case:  # programs with shared intermediates (props_ext/c23_shared.py)
+            try:
+                with_timeout(120, lambda: SH.replay(ctx, case))
+            except Hang:
+                ctx.fail("random:hang", case, "building / computing a program with shared intermediates over a random array does not finish within 120 s")
+        elif "access_scenario" in case:  # accesses between successive draws (props_ext/c23_access.py)
+            try:
+                with_timeout(120, lambda: AC.replay(ctx, case))
+            except Hang:
+                ctx.fail("random:hang", case, "a sequence of seeded draws with accesses in between does not finish within 120 s")
+        elif case.get("kind") == "arrayparam":  # normal / poisson with array-valued parameters
             c = {k: v for k, v in case.items() if k not in ("error", "got", "want", "scheduler")}
             try:
                 with_timeout(120, lambda: check_arrayparam(ctx, c))
@@ -973,6 +1006,15 @@ def run(ctx, replay=None):
         with_timeout(30, lambda: probe_generic_array_param(ctx))
     except Hang:
         ctx.fail("random:hang", {"where": "probe_generic_array_param"}, "the known-class probe does not finish within 30 s")
+    # programs with SHARED intermediates (fusion groups that receive a substituted external operand) and accesses BETWEEN draws
+    try:
+        with_timeout(ctx.scale(90, 600), lambda: SH.search(ctx, GEN_KINDS))
+    except Hang:
+        ctx.fail("random:hang", {"where": "c23_shared.search"}, "programs with shared intermediates over random arrays do not finish within the watchdog time")
+    try:
+        with_timeout(ctx.scale(90, 600), lambda: AC.search(ctx))
+    except Hang:
+        ctx.fail("random:hang", {"where": "c23_access.search"}, "sequences of seeded draws with accesses in between do not finish within the watchdog time")
     search(ctx)
     search_arrayparam(ctx)
     if ctx.disagreements:
